@@ -1,5 +1,5 @@
 """Channel T: type names and type tables."""
-import json, os, shutil, subprocess, time
+import re, json, os, shutil, subprocess, time
 from common import *
 
 
@@ -59,7 +59,11 @@ def analyse(info):
             p, msg = l.split(" ", 1)
             res["oracle"].append({"property": p.split("=")[1], "message": msg})
     if info.get("probe_rc", 0) != 0:
-        res["oracle"].append({"property": "C17", "message": "a recorded type name, written into code, does not denote the source type (rustc probe `const _: fn(T) -> <name> = |x| x;`): " + info.get("probe_err", "")[:600]})
+        err = info.get("probe_err", "")
+        firsts = re.findall(r"(error(?:\[E\d+\])?: [^\n]*)\n\s*--> [^\n]*\n(?:[^\n]*\n){0,2}?\s*\d+\s*\|\s*(const _: fn[^\n]*)", err)
+        detail = "; ".join(f"{m[0]} at `{m[1][:160]}`" for m in firsts[:2]) or err[-500:]
+        res["oracle"].append({"property": "C17", "message": "a recorded type name, written into code, does not denote the source type (rustc probe `const _: fn(T) -> <name> = |x| x;`): " + detail})
+        res["oracle"].append({"property": "C13", "message": "a field of a nameable type makes the generated module uncompilable: its recorded type name, written into code, is rejected by rustc: " + detail})
     try:
         res["stats"] = json.load(open(os.path.join(base, "stats.json")))
     except Exception:
